@@ -14,7 +14,7 @@
 (*   MarkRebased = FALSE        : realign forgets to rebase mark_in_buf    *)
 (*   AdvanceChecksFirst = FALSE : advance() commits valid_len, then panics *)
 (***************************************************************************)
-EXTENDS Integers, Sequences
+EXTENDS Integers, Sequences, TLC
 
 CONSTANTS MarkRebased, AdvanceChecksFirst,
           MaxOffered, MaxIntr, ReqArgs, ChunkArgs,     \* as in ReaderAbs
@@ -44,14 +44,38 @@ ghosts  == <<advanced, markAbs, maxNeed, maxChunk>>
 
 Min(a, b) == IF a < b THEN a ELSE b
 Max(a, b) == IF a > b THEN a ELSE b
-Idle == [op |-> "idle"]
+\* pend and ret are tuples, not records: TLC 1.8 normalises record values lazily and shares the
+\* field-name array between records built from the same literal, which races with several workers.
+\* pend = <<op, argument, done>>, ret = <<op, a, b, calls>>
+Idle == <<"idle", 0, FALSE>>
+POp(p) == p[1]
+PArg(p) == p[2]
+PDone(p) == p[3]
+ROp(r) == r[1]
+RA(r) == r[2]
+RB(r) == r[3]
+RCalls(r) == r[4]
+NoRet == <<"none", 0, 0, 0>>
+PanicRet == <<"panic", 0, 0, 0>>
 
 Abs == INSTANCE ReaderAbs WITH pos <- pob + pib, avail <- vlen, mark <- pob + mib
 
+\* Every action ends with Chk: the step must be a step of the abstract reader (or leave its variables
+\* unchanged), and a returning call must tell the truth.  These are the action properties AbsSpec and
+\* RetProps below, evaluated inside the next-state relation because TLC 1.8 evaluates PROPERTY action
+\* formulas racily with several workers (spurious violations on the first transitions were observed).
+RefinementStep == Abs!ANext \/ UNCHANGED Abs!avars
+RetStep == (pend # Idle /\ pend' = Idle /\ ROp(ret') # "panic") =>
+                  /\ (ROp(ret') = "request" => (RB(ret') => complete))
+                  /\ (ROp(ret') = "byte_at" => (~RA(ret') => complete))
+                  /\ (ROp(ret') = "more"    => (~RA(ret')  => complete))
+Chk == /\ Assert(RefinementStep, <<"refinement of ReaderAbs violated", pend, pend'>>)
+       /\ Assert(RetStep, <<"RetProps violated", ret'>>)
+
 Continue ==
-  CASE pend.op = "request" -> vlen < pend.n /\ ~complete
-    [] pend.op = "byte_at" -> vlen <= pend.k /\ ~complete
-    [] pend.op = "more"    -> ~pend.done /\ ~complete
+  CASE POp(pend) = "request" -> vlen < PArg(pend) /\ ~complete
+    [] POp(pend) = "byte_at" -> vlen <= PArg(pend) /\ ~complete
+    [] POp(pend) = "more"    -> ~PDone(pend) /\ ~complete
     [] OTHER               -> FALSE
 
 Init ==
@@ -60,18 +84,19 @@ Init ==
   /\ soff = 0 /\ sdone = FALSE /\ scalls = 0
   /\ buf = <<>> /\ pib = 0 /\ vlen = 0 /\ pob = 0 /\ mib = 0
   /\ complete = FALSE /\ err = FALSE /\ chunk = Chunk0
-  /\ pend = Idle /\ ret = [op |-> "none"]
+  /\ pend = Idle /\ ret = NoRet
   /\ advanced = 0 /\ markAbs = 0 /\ maxNeed = 0 /\ maxChunk = Chunk0
 
 Call(p) ==
   /\ pend = Idle
   /\ pend' = p
   /\ scalls' = 0
-  /\ maxNeed' = Max(maxNeed, CASE p.op = "request" -> p.n
-                               [] p.op = "byte_at" -> p.k + 1
+  /\ maxNeed' = Max(maxNeed, CASE POp(p) = "request" -> PArg(p)
+                               [] POp(p) = "byte_at" -> PArg(p) + 1
                                [] OTHER            -> vlen + 1)
   /\ UNCHANGED <<envvars, preLeft, soff, sdone, buf, pib, vlen, pob, mib, complete, err, chunk, ret,
                  advanced, markAbs, maxChunk>>
+  /\ Chk
 
 (***************************************************************************)
 (* request_more(), lines 304-361: realign?, shrink?, grow?, then the read  *)
@@ -94,7 +119,7 @@ RMCommon(intr) ==
   /\ pib' = Pib1
   /\ pob' = IF Realigning THEN pob + pib ELSE pob
   /\ mib' = IF Realigning /\ MarkRebased THEN mib - pib ELSE mib
-  /\ pend' = IF pend.op = "more" THEN [pend EXCEPT !.done = TRUE] ELSE pend
+  /\ pend' = IF POp(pend) = "more" THEN <<"more", 0, TRUE>> ELSE pend
   /\ scalls' = scalls + intr + 1
   /\ UNCHANGED <<envvars, chunk, ret, ghosts>>
 
@@ -109,6 +134,7 @@ RMBytes(n, intr) ==
   /\ soff' = soff + n
   /\ preLeft' = IF preLeft > 0 THEN preLeft - n ELSE 0
   /\ UNCHANGED <<sdone, complete, err>>
+  /\ Chk
 
 RMEof(intr) ==
   /\ RMCommon(intr)
@@ -116,6 +142,7 @@ RMEof(intr) ==
   /\ buf' = Buf3
   /\ complete' = TRUE /\ sdone' = TRUE
   /\ UNCHANGED <<vlen, soff, preLeft, err>>
+  /\ Chk
 
 RMErr(intr) ==
   /\ RMCommon(intr)
@@ -123,6 +150,7 @@ RMErr(intr) ==
   /\ buf' = Buf3
   /\ complete' = TRUE /\ sdone' = TRUE /\ err' = TRUE
   /\ UNCHANGED <<vlen, soff, preLeft>>
+  /\ Chk
 
 \* The source returns n > offered: the load-bearing assert panics before valid_len is touched.
 \* Realign / shrink / grow have already happened; the call is abandoned.
@@ -133,70 +161,75 @@ RMOverrun ==
   /\ mib' = IF Realigning /\ MarkRebased THEN mib - pib ELSE mib
   /\ buf' = Buf3
   /\ pend' = Idle
-  /\ ret' = [op |-> "panic"]
+  /\ ret' = PanicRet
   /\ scalls' = scalls + 1
   /\ UNCHANGED <<envvars, preLeft, soff, sdone, vlen, complete, err, chunk, ghosts>>
+  /\ Chk
 
 Return ==
   /\ pend # Idle /\ ~Continue
-  /\ ret' = CASE pend.op = "request" -> [op |-> "request", len |-> vlen, short |-> vlen < pend.n,
-                                          calls |-> scalls]
-              [] pend.op = "byte_at" -> [op |-> "byte_at", some |-> pend.k < vlen,
-                                          byte |-> IF pend.k < vlen THEN buf[pib + pend.k + 1] ELSE -1,
-                                          calls |-> scalls]
-              [] pend.op = "more"    -> [op |-> "more", val |-> pend.done, calls |-> scalls]
+  /\ ret' = CASE POp(pend) = "request" -> <<"request", vlen, vlen < PArg(pend), scalls>>
+              [] POp(pend) = "byte_at" -> <<"byte_at", PArg(pend) < vlen, IF PArg(pend) < vlen THEN buf[pib + PArg(pend) + 1] ELSE -1, scalls>>
+              [] POp(pend) = "more"    -> <<"more", PDone(pend), 0, scalls>>
   /\ pend' = Idle
   /\ UNCHANGED <<envvars, preLeft, soff, sdone, scalls, buf, pib, vlen, pob, mib, complete, err, chunk, ghosts>>
+  /\ Chk
 
 Advance(n) ==
   /\ pend = Idle /\ n >= 0 /\ n <= vlen
   /\ vlen' = vlen - n /\ pib' = pib + n
   /\ advanced' = advanced + n
-  /\ ret' = [op |-> "advance", from |-> pob + pib, n |-> n]
+  /\ ret' = <<"advance", pob + pib, n, 0>>
   /\ UNCHANGED <<envvars, preLeft, soff, sdone, scalls, buf, pob, mib, complete, err, chunk, pend,
                  markAbs, maxNeed, maxChunk>>
+  /\ Chk
 
 \* advance(n) with n > valid_len: panics.  Intended design: nothing changes.
 AdvancePast(n) ==
   /\ pend = Idle /\ n > vlen
   /\ vlen' = IF AdvanceChecksFirst THEN vlen ELSE vlen - n      \* the code stores the wrapped value
-  /\ ret' = [op |-> "panic"]
+  /\ ret' = PanicRet
   /\ UNCHANGED <<envvars, preLeft, soff, sdone, scalls, buf, pib, pob, mib, complete, err, chunk, pend, ghosts>>
+  /\ Chk
 
 SetMark ==
   /\ pend = Idle
   /\ mib' = pib
   /\ markAbs' = advanced
-  /\ ret' = [op |-> "set_mark"]
+  /\ ret' = <<"set_mark", 0, 0, 0>>
   /\ UNCHANGED <<envvars, preLeft, soff, sdone, scalls, buf, pib, vlen, pob, complete, err, chunk, pend,
                  advanced, maxNeed, maxChunk>>
+  /\ Chk
 
 SetMarkTo(p) ==
   /\ pend = Idle /\ p >= 0
   /\ mib' = p - pob
   /\ markAbs' = p
-  /\ ret' = [op |-> "set_mark"]
+  /\ ret' = <<"set_mark", 0, 0, 0>>
   /\ UNCHANGED <<envvars, preLeft, soff, sdone, scalls, buf, pib, vlen, pob, complete, err, chunk, pend,
                  advanced, maxNeed, maxChunk>>
+  /\ Chk
 
 SetChunk(c) ==
   /\ pend = Idle /\ c >= 1
   /\ chunk' = c
   /\ maxChunk' = Max(maxChunk, c)
-  /\ ret' = [op |-> "set_chunk"]
+  /\ ret' = <<"set_chunk", 0, 0, 0>>
   /\ UNCHANGED <<envvars, preLeft, soff, sdone, scalls, buf, pib, vlen, pob, mib, complete, err, pend,
                  advanced, markAbs, maxNeed>>
+  /\ Chk
 
 CheckIoError ==
   /\ pend = Idle
-  /\ ret' = [op |-> "check", was |-> err]
+  /\ ret' = <<"check", err, 0, 0>>
   /\ err' = FALSE
   /\ UNCHANGED <<envvars, preLeft, soff, sdone, scalls, buf, pib, vlen, pob, mib, complete, chunk, pend, ghosts>>
+  /\ Chk
 
 Next ==
-  \/ \E n \in ReqArgs : Call([op |-> "request", n |-> n])
-  \/ \E k \in ReqArgs : Call([op |-> "byte_at", k |-> k])
-  \/ Call([op |-> "more", done |-> FALSE])
+  \/ \E n \in ReqArgs : Call(<<"request", n, FALSE>>)
+  \/ \E k \in ReqArgs : Call(<<"byte_at", k, FALSE>>)
+  \/ Call(<<"more", 0, FALSE>>)
   \/ \E n \in 1..MaxOffered, i \in 0..MaxIntr : RMBytes(n, i)
   \/ \E i \in 0..MaxIntr : RMEof(i) \/ RMErr(i)
   \/ RMOverrun
@@ -231,12 +264,13 @@ DesignInv == IndexSafe /\ WindowOk /\ Position /\ MarkStable /\ BufBound
              /\ Abs!Delivered /\ Abs!CompleteIff /\ Abs!ErrOnlyIfFailed
 
 \* a request only falls short / a byte is only absent / request_more only says "no" once complete
-RetProps == [][ (pend # Idle /\ pend' = Idle /\ ret'.op # "panic") =>
-                  /\ (ret'.op = "request" => (ret'.short => complete))
-                  /\ (ret'.op = "byte_at" => (~ret'.some => complete))
-                  /\ (ret'.op = "more"    => (~ret'.val  => complete)) ]_vars
+RetProps == [][ (pend # Idle /\ pend' = Idle /\ ROp(ret') # "panic") =>
+                  /\ (ROp(ret') = "request" => (RB(ret') => complete))
+                  /\ (ROp(ret') = "byte_at" => (~RA(ret') => complete))
+                  /\ (ROp(ret') = "more"    => (~RA(ret')  => complete)) ]_vars
 
 \* Refinement: every behaviour of the design is a behaviour of the abstract reader.
 AbsInit == \E s \in Streams : Abs!AInit(s[1], s[2], s[3], s[4])
 AbsSpec == AbsInit /\ [][Abs!ANext]_(Abs!avars)
+
 =============================================================================
